@@ -192,7 +192,10 @@ fn process_array_in(
                 Ok(sql_ast::Expr::Value(Value::Boolean(false).into()))
             } else {
                 Ok(sql_ast::Expr::InList {
-                    expr: Box::new(translate_expr(col_expr.clone(), ctx)?.into_ast()),
+                    expr: Box::new(
+                        translate_operand(col_expr.clone(), true, 7, Associativity::Left, ctx)?
+                            .into_ast(),
+                    ),
                     list: in_values
                         .iter()
                         .map(|a| Ok(translate_expr(a.clone(), ctx)?.into_ast()))
@@ -348,16 +351,16 @@ fn try_into_between(expr: rq::Expr, ctx: &mut Context) -> Result<Option<sql_ast:
                     if a_l == b_l {
                         return Ok(Some(sql_ast::Expr::Between {
                             expr: Box::new(
-                                translate_operand(a_l, true, 0, Associativity::Both, ctx)?
+                                translate_operand(a_l, true, 7, Associativity::Left, ctx)?
                                     .into_ast(),
                             ),
                             negated: false,
                             low: Box::new(
-                                translate_operand(a_r, true, 0, Associativity::Both, ctx)?
+                                translate_operand(a_r, true, 7, Associativity::Left, ctx)?
                                     .into_ast(),
                             ),
                             high: Box::new(
-                                translate_operand(b_r, true, 0, Associativity::Both, ctx)?
+                                translate_operand(b_r, true, 7, Associativity::Left, ctx)?
                                     .into_ast(),
                             ),
                         }));
@@ -987,7 +990,10 @@ impl SQLExpression for sql_ast::Expr {
 
             sql_ast::Expr::UnaryOp { op, .. } => op.binding_strength(),
 
-            sql_ast::Expr::Like { .. } | sql_ast::Expr::ILike { .. } => 7,
+            sql_ast::Expr::Like { .. }
+            | sql_ast::Expr::ILike { .. }
+            | sql_ast::Expr::Between { .. }
+            | sql_ast::Expr::InList { .. } => 7,
 
             sql_ast::Expr::IsNull(_) | sql_ast::Expr::IsNotNull(_) => 5,
 
